@@ -242,6 +242,11 @@ class Runner:
                     f_e, f_l, f_2 = float(b.getMassFrac(elem)), float(b.getMassFrac([elem, ov])), float(b.getMassFrac([ov, ov]))
                     if not rel(f_l, f_e, 1e-9) or not rel(f_2, float(b.getMassFrac(ov)), 1e-9):
                         self.fail("C02.massfrac", f"step {k}: block getMassFrac(['{elem}', '{ov}']) = {f_l} but getMassFrac('{elem}') = {f_e}; getMassFrac(['{ov}', '{ov}']) = {f_2} but getMassFrac('{ov}') = {float(b.getMassFrac(ov))}", what="overlapping-selection", level="block")
+                # an element selection names every nuclide of that element that is there (natural or not)
+                for elem, prefix in (("U", "U2"), ("ZR", "ZR"), ("PU", "PU2")):
+                    iso = [n for n in b_mass if n.startswith(prefix)]
+                    if iso and not rel(float(b.getMass(elem)), sum(b_mass[n] for n in iso)):
+                        self.fail("C02.additivity", f"step {k}: block getMass('{elem}') {float(b.getMass(elem))} != sum over its nuclides {sorted(iso)} {sum(b_mass[n] for n in iso)}", what="element", level="block")
                 tot = float(b.getMass())
                 if not rel(tot, sum(b_mass.values())):
                     self.fail("C02.additivity", f"step {k}: block total mass {tot} != sum over nuclides {sum(b_mass.values())}", what="total", level="block")
@@ -427,6 +432,12 @@ class Runner:
             return False
         nuc = nucs[st["nuc"] % len(nucs)]
         nuc2 = nucs[st["nuc2"] % len(nucs)]
+        if st["op"] in ("setNumberDensity", "updateNumberDensities") and st["level"] == "component" and "U235" in nucs and st["nuc"] % 5 == 2:
+            # an isotope that builds up under irradiation (not one of the element's natural ones)
+            nuc = "U236"
+            if nuc not in nucs:
+                nucs = sorted(nucs + [nuc])
+            self.probe("non_natural_isotope_added")
         before = {n: float(v) for n, v in zip(nucs, obj.getNuclideNumberDensities(nucs))}
         mass_before = {n: float(obj.getMass(n)) for n in nucs}
         op = st["op"]
